@@ -147,29 +147,31 @@ def check_case(case, steps):
                     fails.append((k, "copy/shares-connectivity",
                                   "step %d copy(copy_connectivity=True) hands the SAME connectivity object (mutable caches, "
                                   "back-reference to the source mesh) to the copy" % k))
-                sinfo = _info_of(steps, ops, op[1])
-                if sinfo is not None and (info["kind"], info["edges"], info["faces"], info["cells"]) != \
-                        (sinfo["kind"], sinfo["edges"], sinfo["faces"], sinfo["cells"]):
-                    fails.append((k, "copy/combinatorics", "step %d copy has other elements than its source" % k))
+                sinfo = info["src"][0]
+                for key, what in CONTAINERS:
+                    if info[key] != sinfo[key]:
+                        fails.append((k, "copy/container-differs",
+                                      "step %d copy(copy_attributes=%s): %s of the copy differs from the source: source %s copy %s"
+                                      % (k, bool(op[2]), what, _short(sinfo[key]), _short(info[key]))))
+                        break
             elif name == "merge":
                 exp = []
                 for m in op[1]:
                     exp += prev[m]["xyz"]
                 if new["xyz"] != exp:
                     fails.append((k, "merge/vertices", "step %d merge: vertices are not the concatenation of the inputs" % k))
-                off = 0
-                E, Fc, C, kind = [], [], [], 0
-                for m in op[1]:
-                    si = _info_of(steps, ops, m)
-                    E += [[off + u for u in e] for e in si["edges"]]
-                    Fc += [[off + u for u in f] for f in si["faces"]]
-                    C += [[off + u for u in c] for c in si["cells"]]
-                    kind = max(kind, 3 if si["cells"] else 2 if si["faces"] else 1 if si["edges"] else 0)
-                    off += len(prev[m]["xyz"])
-                if (info["edges"], info["faces"], info["cells"]) != (E, Fc, C):
+                exp = merge_expected(info["src"])
+                if (info["edges"], info["faces"], info["cells"]) != (exp["edges"], exp["faces"], exp["cells"]):
                     fails.append((k, "merge/indices", "step %d merge: elements are not the inputs' shifted by the running vertex count" % k))
-                if info["kind"] != kind:
-                    fails.append((k, "merge/class", "step %d merge: class %s, largest dimensionality %s" % (k, info["kind"], kind)))
+                else:
+                    for key, what in CONTAINERS[3:6]:
+                        if info[key] != exp[key]:
+                            fails.append((k, "merge/corner-tables",
+                                          "step %d merge: %s is not the inputs' renumbered by the running vertex/face/cell counts: expected %s got %s"
+                                          % (k, what, _short(exp[key]), _short(info[key]))))
+                            break
+                if info["kind"] != exp["kind"]:
+                    fails.append((k, "merge/class", "step %d merge: class %s, largest dimensionality %s" % (k, info["kind"], exp["kind"])))
                 if shared or dup:
                     fails.append((k, "merge/shares-buffers",
                                   "step %d merge %s: result shares vertex buffers with its inputs (slots %s) / within itself (%s)"
@@ -196,8 +198,13 @@ def check_case(case, steps):
                 if dup or bad:
                     fails.append((k, name + "/shares-buffers", "step %d %s: slots share buffers inside the result (%s) or with a stranger (%s)" % (k, name, dup, bad[:4])))
                 elif shared:
-                    notes.append("derived producer %s aliases its source" % name)
+                    fails.append((k, name + "/aliases-source",
+                                  "step %d %s of object %d: %d of the %d vertices of the result are the source's own vectors "
+                                  "(a transform of the result moves the source)" % (k, name, op[1], len(shared), len(new["cls"]))))
             elif name in ("proc", "load"):
+                if info.get("shares_params"):
+                    fails.append((k, "proc/aliases-caller-vectors",
+                                  "step %d %s: the mesh's vertices are views of the caller's point arguments" % (k, op[1])))
                 if shared or dup:
                     fails.append((k, name + "/shares-buffers", "step %d %s %s: vertex slots share buffers (%s, dup=%s)" % (k, name, op[1], shared[:4], dup)))
             # links are inherited by nobody else: copy/merge/from_arrays must be fresh
@@ -254,6 +261,43 @@ def check_case(case, steps):
                 fails.append((b, ops[a][0] + "/inverse-does-not-restore",
                               "steps %d,%d: %s then its inverse does not restore the coordinates" % (a, b, ops[a][0])))
     return fails, notes
+
+
+CONTAINERS = [("edges", "edges"), ("faces", "faces"), ("cells", "cells"),
+              ("fc", "face_corners (elements, owners)"), ("cc", "cell_corners (elements, owners)"),
+              ("cf", "cell_faces (elements, owners)"), ("kind", "class")]
+
+
+def _short(x):
+    t = repr(x)
+    return t if len(t) < 160 else t[:157] + "..."
+
+
+def merge_expected(srcs):
+    """disjoint union of the inputs: vertices, faces and cells renumbered by the running counts"""
+    voff = foff = coff = 0
+    out = {"edges": [], "faces": [], "cells": [], "fc": [[], []], "cc": [[], []], "cf": [[], []], "kind": 0}
+    for si in srcs:
+        k = si["kind"]
+        E = si["edges"] if k >= 1 else []
+        Fc = si["faces"] if k >= 2 else []
+        C = si["cells"] if k >= 3 else []
+        out["edges"] += [[voff + u for u in e] for e in E]
+        out["faces"] += [[voff + u for u in f] for f in Fc]
+        out["cells"] += [[voff + u for u in c] for c in C]
+        if k >= 2:
+            out["fc"][0] += [voff + u for u in si["fc"][0]]
+            out["fc"][1] += [foff + u for u in si["fc"][1]]
+        if k >= 3:
+            out["cc"][0] += [voff + u for u in si["cc"][0]]
+            out["cc"][1] += [coff + u for u in si["cc"][1]]
+            out["cf"][0] += [foff + u for u in si["cf"][0]]
+            out["cf"][1] += [coff + u for u in si["cf"][1]]
+        out["kind"] = max(out["kind"], 3 if C else 2 if Fc else 1 if E else 0)
+        voff += si["nv"]
+        foff += len(Fc)
+        coff += len(C)
+    return out
 
 
 def _span0(xyz):
